@@ -7,6 +7,10 @@ S2C: every operation sequence enumerated by TLC (path enumeration over five alph
      GEN_FAMILIES) plus seeded TLC simulation walks are replayed on the real Queue / LifoQueue /
      PriorityQueue on the virtual loop; the projection (every put/get/join future's state, every
      delivered item, qsize/empty/full, exception class of the call) is compared after every step.
+     Every behaviour is replayed under four placements of event-loop iterations: settled after every
+     call; all calls of a stretch inside one iteration (no callback runs between them) with the calls
+     after an advance made from a callback in the iteration in which the timers fire; the same one
+     iteration later; and a pseudo-random placement two iterations later (see harness.sync_driver._Fused).
 C2S: seeded random runs recorded from the real queues (long histories, maxsize 0..3, many more
      operations than TLC enumerates) are validated by TLC against Trace_Queue with every invariant
      and action property evaluated at every step.
@@ -242,13 +246,17 @@ def run(ctx):
     t0 = _timed(ctx, "mc", t0)
     # 2. spec -> code: all paths up to L over five alphabets
     rule = []
+    fams = []
     for name, ov, lq, lt in GEN_FAMILIES:
         L = ctx.pick(lq, lt)
+        if not L:
+            continue
         o = dict(ov)
         o["L"] = L
-        sync_paths.stream_replay(ctx, "Gen_Queue", "Gen_Queue.cfg", o, replayer, label="s2c-" + name,
-                                 nontrivial=lambda e, p: len(p) >= 2 and any(s["act"] != "advance" for s in p))
+        fams.append(("s2c-" + name, o))
         rule.append("%s: all sequences <= %d over %s" % (name, L, ", ".join("%s=%s" % kv for kv in sorted(ov.items()))))
+    sync_paths.stream_replay_many(ctx, "Gen_Queue", "Gen_Queue.cfg", fams, replayer, parallel=ctx.pick(3, 2),
+                                  nontrivial=lambda e, p: len(p) >= 2 and any(s["act"] != "advance" for s in p))
     ctx.cov["exhaustive"] = True
     t0 = _timed(ctx, "s2c-enum", t0)
     # long seeded walks through larger constants
